@@ -7,4 +7,4 @@ import elex "github.com/gardenbed/emerge/internal/ebnf/lexer"
 const haveLexShim = true
 
 func lexAdvance(s int, r rune) int { return elex.VerifAdvanceDFA(s, r) }
-func lexEvalState(s int) string  { return elex.VerifEvalState(s) }
+func lexEvalState(s int) string    { return elex.VerifEvalState(s) }
